@@ -17,4 +17,8 @@ def checkpointStartEndPairsSet : Bool := true
     the tasks already computed as pending inputs (2 = `DrainSave.pending`, fixes/C05-eager-drain-pending.diff;
     the shipped code has 0 = `refold`, the recorded finding) -/
 def eagerDrainSave : Nat := 2
+/-- a stream that was closed without any chunk is stored in a checkpoint as `nil` and `nil` is restored
+    as a stream without chunks (`defaultStreamConvertPair`): the chunk-less stream survives the round
+    trip as what it was (not as a stream with one zero chunk) -/
+def emptyStreamStoredAsNil : Bool := true
 end EinoV.Expected.C05
